@@ -134,6 +134,35 @@ impl Api for SimApi {
     fn debug(&self, _message: &str) {}
 }
 
+/// Querier over a snapshot of the chain's bank ledger: answers `BankQuery::{Balance, AllBalances}`
+/// (a contract may look at its own balances); everything else is an unknown request.
+pub struct BankQuerier {
+    pub bank: std::collections::BTreeMap<(String, String), u128>,
+}
+
+impl Querier for BankQuerier {
+    fn raw_query(&self, bin_request: &[u8]) -> QuerierResult {
+        use cosmwasm_std::{BankQuery, Binary, QueryRequest};
+        let req: QueryRequest<cosmwasm_std::Empty> = match cosmwasm_std::from_json(bin_request) {
+            Ok(r) => r,
+            Err(e) => return SystemResult::Err(SystemError::InvalidRequest { error: e.to_string(), request: Binary::from(bin_request) }),
+        };
+        let coin = |d: &str, a: u128| serde_json::json!({"denom": d, "amount": a.to_string()});
+        let v = match req {
+            QueryRequest::Bank(BankQuery::Balance { address, denom }) => {
+                let a = self.bank.get(&(address, denom.clone())).copied().unwrap_or(0);
+                serde_json::json!({"amount": coin(&denom, a)})
+            }
+            QueryRequest::Bank(BankQuery::AllBalances { address }) => {
+                let coins: Vec<serde_json::Value> = self.bank.iter().filter(|((acct, _), a)| *acct == address && **a > 0).map(|((_, d), a)| coin(d, *a)).collect();
+                serde_json::json!({"amount": coins})
+            }
+            _ => return SystemResult::Err(SystemError::Unknown {}),
+        };
+        SystemResult::Ok(ContractResult::Ok(Binary::from(serde_json::to_vec(&v).unwrap())))
+    }
+}
+
 pub struct NoQuerier;
 impl Querier for NoQuerier {
     fn raw_query(&self, _bin_request: &[u8]) -> QuerierResult {
